@@ -132,6 +132,17 @@ class WEval:
         if mac in ("panic", "unreachable"):
             st.events.append(("panic", "explicit panic"))
             raise Abort()
+        if mac in ("assert", "debug_assert") and H.tag(n) == "if" and n[3] is None:
+            # assert!(c) expands to `if !c { panic }`: decide c on this piece (splitting where it changes)
+            c = self.ev(n[1], env, pc, st)
+            if c == ("bool", False):
+                return ("unit",)
+            if c == ("bool", True):
+                inner = H.strip(n[1])
+                what = H.short(inner[4] if H.tag(inner) == "un" else inner, maxlen=80)
+                st.events.append(("assert", f"assert!({what}) fails"))
+                raise Abort()
+            raise Unk(f"assert condition {H.short(n[1], maxlen=80)}")
         t = H.tag(n)
         if t in ("try", "await"):
             return self.ev(n[1], env, pc, st)
